@@ -113,6 +113,24 @@ Theorem C29_no_replay_across_decisions :
 Proof. exact @part_session_no_replay. Qed.
 Print Assumptions C29_no_replay_across_decisions.
 
+(* proof context maps are values: deriving the next map with Update leaves every
+   existing version as it was, so every verdict (Verify, ProofContextFor) obtained
+   from a version before an Update is obtained again after any further history *)
+Theorem C29_old_map_unchanged :
+  forall (sigT addrT : Type) (maps : list (list (Z * list (option addrT)))) (ops : list (@pcm_op sigT addrT)) i m,
+    nth_error maps i = Some m -> nth_error (pcm_versions maps ops) i = Some m.
+Proof. exact @old_versions_unchanged. Qed.
+Print Assumptions C29_old_map_unchanged.
+
+Theorem C29_verdicts_repeat :
+  forall (sigT addrT : Type) (addr_eqb : addrT -> addrT -> bool)
+         (recover : decision -> sigT -> option addrT),
+  forall (maps : list (list (Z * list (option addrT)))) (ops : list (@pcm_op sigT addrT)) o b,
+    pcm_answer addr_eqb recover maps o = Some b ->
+    pcm_answer addr_eqb recover (pcm_versions maps ops) o = Some b.
+Proof. exact @verdicts_repeat. Qed.
+Print Assumptions C29_verdicts_repeat.
+
 (* with the signature ground truth of the correspondence run *)
 Theorem C29_accept_iff_ground_truth :
   forall d (vals : list (option nat)) (sigs : list (option bsig)),
